@@ -86,7 +86,7 @@ theorem this_tree (cap : Nat) (ops : List ConnOp)
     · rw [hf] at h; exact absurd h (by decide)
     · exact ⟨(output_on_negotiated_transport_partial cap ops h).1, (output_on_negotiated_transport_partial cap ops h).2.1⟩
 
-/-- THIS tree (F30 = /repo d6aa4e3 is committed; audit B12): `Tie.WireStack.setOutputBuffer_shape` accepts only the
+/-- THIS tree, FRAME bytes only (the sync markers of `c.flateWriter` are `this_tree_k`; F30 = /repo d6aa4e3 is committed; audit B12): `Tie.WireStack.setOutputBuffer_shape` accepts only the
 F30 shape, the facts decide `treeFixed = true`, and the clause holds for EVERY schedule with no hypothesis. A tree that
 reverts F30 fails `tree_fixed` and this theorem with it. -/
 theorem this_tree_full (cap : Nat) (ops : List ConnOp) :
@@ -127,5 +127,162 @@ example : let c := trun true (tconn0 8) [.upgrade 8, .sendResponse okFrame, .set
 /-- the tree's model on the second-IDENTIFY schedule: nothing leaked -/
 example : (trun Nsq.Tie.WireStack.treeFixed (tconn0 16384) (secondIdentify [83, 69, 67, 82, 69, 84])).leaked = [] :=
   (this_tree_full 16384 _).2
+
+/-! ## Round 11 (fix review of F30): the sync markers of `c.flateWriter` — F30 is incomplete, F30b completes it
+
+The theorems above speak about the bytes of the FRAMES. `clientV2.Flush` also flushes `c.flateWriter`, and a flate
+writer left over from an earlier IDENTIFY writes its sync marker underneath the stack the client decodes. /repo
+d6aa4e3 (F30) drops it in `UpgradeSnappy` only: IDENTIFY{deflate} followed by IDENTIFY{tls_v1} leaves it in place.
+Model `kstep` (upgrade kinds, `c.tlsConn`, `c.flateWriter`, stray markers), tree `Tie.WireStack.tree`. -/
+
+/-- The literal clause including the markers, for a tree: after EVERY sequence of protocol actions from a fresh
+connection, every output byte — frame or marker of a flate writer that is not part of the client's stack — was handed
+to the transport the client decodes with. -/
+def OutputOnNegotiatedTransportK (tr : Tree) : Prop :=
+  ∀ (cap : Nat) (ops : List KOp), (krun tr (kconn0 cap) ops).OnNegotiated
+
+/-- With F30 + F30b: full strength. For every action sequence (any number of IDENTIFYs negotiating TLS, snappy,
+deflate in ANY order, buffer changes, responses, messages, flushes, SUB): `c.flateWriter` is never stale, no stray
+marker is ever written, all frame bytes are on the negotiated transport, nothing reaches the raw connection once an
+upgrade has completed, and the client decodes exactly the frames sent. -/
+theorem output_on_negotiated_transport_k (cap : Nat) (ops : List KOp) :
+    let c := krun treeF30b (kconn0 cap) ops
+    c.OnNegotiated ∧ ¬ c.Stale ∧ c.stray = [] ∧ c.t.leaked = [] ∧
+      c.seen ++ c.t.w.buf = (c.t.sent.map encodeFrame).flatten := by
+  intro c
+  have hc : Clean c := clean_run treeF30b rfl rfl _ ops (clean_kconn0 cap)
+  have ht : c.t = trun true (tconn0 cap) (ops.map KOp.forget) := krun_t treeF30b (kconn0 cap) ops
+  have hf := output_on_negotiated_transport cap (ops.map KOp.forget)
+  simp only [] at hf
+  rw [← ht] at hf
+  refine ⟨⟨hf.1, by simp [hc.2]⟩, ?_, hc.2, hf.2.1, ?_⟩
+  · intro ⟨w, hw, hn⟩; exact hn (hc.1 w hw)
+  · simp only [KConn.seen, hc.2]; exact hf.2.2
+
+theorem output_on_negotiated_transport_k_full : OutputOnNegotiatedTransportK treeF30b :=
+  fun cap ops => (output_on_negotiated_transport_k cap ops).1
+
+/-- the fix reviewer's schedule: IDENTIFY{deflate} (document, upgrade, OK); IDENTIFY{tls_v1} (document, handshake,
+OK); SUB; a message; flush -/
+def tlsAfterDeflate (body : Bytes) : List KOp :=
+  [.sendResponse ⟨0#32, [123, 125]⟩, .upgrade .deflate 16384, .sendResponse okFrame,
+   .sendResponse ⟨0#32, [123, 125]⟩, .upgrade .tls 16384, .sendResponse okFrame,
+   .subscribe, .sendMessage ⟨2#32, body⟩, .flush]
+
+/-- On /repo d6aa4e3 (F30 alone) the clause is FALSE. -/
+theorem output_on_negotiated_transport_k_false : ¬ OutputOnNegotiatedTransportK treeF30 := by
+  intro h
+  exact absurd (h 16384 (tlsAfterDeflate [83, 69, 67, 82, 69, 84])) (by decide)
+
+/-- … what happens on the witness: the flate writer of upgrade 1 (writing to layer 0, the raw connection) is still
+in `c.flateWriter` while the client decodes stack 2 (TLS); the `Flush` of the OK after the handshake and the later
+flush each write its marker to the RAW connection; the client recovers the frames up to that OK (30 bytes) and loses
+the message — although every frame byte went to the right transport. -/
+theorem tls_after_deflate_garbles :
+    let c := krun treeF30 (kconn0 16384) (tlsAfterDeflate [83, 69, 67, 82, 69, 84])
+    c.fw = some ⟨1, 0⟩ ∧ c.Stale ∧ c.stray = [⟨0, 2, 40⟩, ⟨0, 2, 54⟩] ∧ c.t.OnNegotiated ∧
+    c.seen = encodeFrame ⟨0#32, [123, 125]⟩ ++ encodeFrame okFrame ++ encodeFrame ⟨0#32, [123, 125]⟩ ++ encodeFrame okFrame ∧
+    c.seen ≠ (c.t.sent.map encodeFrame).flatten := by decide
+
+/-- In EVERY tree a stray marker goes to a layer strictly below the client's stack: the clause with markers is the
+frame clause plus "no stale flate writer was ever flushed". -/
+theorem stray_never_on_the_clients_stack (tr : Tree) (cap : Nat) (ops : List KOp) :
+    let c := krun tr (kconn0 cap) ops
+    (∀ s ∈ c.stray, s.dest < s.want) ∧ (c.OnNegotiated ↔ c.t.OnNegotiated ∧ c.stray = []) := by
+  intro c
+  have hl : Layered c := layered_run tr _ ops (layered_kconn0 cap)
+  exact ⟨hl.2.2, kOnNegotiated_iff c hl⟩
+
+/-- WHICH orders leave a stale flate writer on /repo d6aa4e3, for every action sequence: exactly those whose
+performed upgrades satisfy `staleAfter` … -/
+theorem stale_exactly (cap : Nat) (ops : List KOp) :
+    let c := krun treeF30 (kconn0 cap) ops
+    c.Stale ↔ staleAfter c.kinds = true := by
+  intro c
+  exact stale_iff_of_tracks c (fwTracks_run _ ops rfl)
+
+/-- … and `staleAfter` in closed form (every list of kinds is of exactly one of the four shapes): stale iff the
+last upgrade that was not TLS is a deflate AND at least one TLS upgrade followed it. deflate→tls, snappy→deflate→tls,
+tls→deflate→tls, deflate→tls→tls are stale; snappy→tls, deflate→snappy→tls, deflate→tls→snappy, deflate→tls→deflate
+are not. -/
+theorem stale_orders (ks : List UKind) (n : Nat) :
+    staleAfter (ks ++ [.deflate] ++ List.replicate (n + 1) .tls) = true ∧
+    staleAfter (ks ++ [.deflate]) = false ∧
+    staleAfter (ks ++ [.snappy] ++ List.replicate n .tls) = false ∧
+    staleAfter (List.replicate n .tls) = false :=
+  ⟨staleAfter_deflate_tls ks n, staleAfter_deflate_last ks, staleAfter_snappy ks n, staleAfter_only_tls n⟩
+
+/-- /repo d6aa4e3, what still holds (*partial*; forced hypothesis: no IDENTIFY negotiates TLS once one has negotiated
+deflate — go-nsq sends one IDENTIFY per connection, and within one IDENTIFY the server performs TLS first). -/
+theorem output_on_negotiated_transport_k_partial (cap : Nat) (ops : List KOp) (h : NoTlsAfterDeflate ops = true) :
+    let c := krun treeF30 (kconn0 cap) ops
+    c.OnNegotiated ∧ c.stray = [] ∧ c.t.leaked = [] ∧ c.seen ++ c.t.w.buf = (c.t.sent.map encodeFrame).flatten := by
+  intro c
+  have e : c = krun treeF30b (kconn0 cap) ops := krun_F30_eq (kconn0 cap) ops rfl h
+  have := output_on_negotiated_transport_k cap ops
+  simp only [] at this
+  rw [← e] at this
+  exact ⟨this.1, this.2.2.1, this.2.2.2.1, this.2.2.2.2⟩
+
+/-- The statement for the checked tree (`Tie.WireStack.tree`, computed from the regenerated `Upgrade*` bodies;
+`Tie.WireStack.tree_known`: d6aa4e3 or d6aa4e3 + F30b): full with F30b, the partial one on d6aa4e3. -/
+theorem this_tree_k (cap : Nat) (ops : List KOp)
+    (h : Nsq.Tie.WireStack.tree = treeF30b ∨ NoTlsAfterDeflate ops = true) :
+    (krun Nsq.Tie.WireStack.tree (kconn0 cap) ops).OnNegotiated ∧
+    (krun Nsq.Tie.WireStack.tree (kconn0 cap) ops).stray = [] := by
+  rcases Nsq.Tie.WireStack.tree_known with ht | ht
+  · rcases h with h | h
+    · rw [ht] at h; exact absurd h (by decide)
+    · rw [ht]
+      exact ⟨(output_on_negotiated_transport_k_partial cap ops h).1, (output_on_negotiated_transport_k_partial cap ops h).2.1⟩
+  · rw [ht]
+    exact ⟨(output_on_negotiated_transport_k cap ops).1, (output_on_negotiated_transport_k cap ops).2.2.1⟩
+
+/-- Every schedule, once the tie decides `tree = treeF30b` (after F30b is committed: `Tie.WireStack.tree_is_F30b`
+discharges `h` — see the tie's header). -/
+theorem this_tree_k_full (h : Nsq.Tie.WireStack.tree = treeF30b) (cap : Nat) (ops : List KOp) :
+    (krun Nsq.Tie.WireStack.tree (kconn0 cap) ops).OnNegotiated ∧
+    (krun Nsq.Tie.WireStack.tree (kconn0 cap) ops).stray = [] :=
+  this_tree_k cap ops (Or.inl h)
+
+/-- the frame-level connection of the kinded model is the round-8 model: the theorems above it apply unchanged -/
+theorem kinded_model_refines (tr : Tree) (cap : Nat) (ops : List KOp) :
+    (krun tr (kconn0 cap) ops).t = trun tr.rebufferKeeps (tconn0 cap) (ops.map KOp.forget) :=
+  krun_t tr (kconn0 cap) ops
+
+/-! ## Non-vacuity (round 11) -/
+
+/-- the reviewer's schedule on the F30b tree: no flate writer after the TLS upgrade, nothing stray, all four
+responses and (after the flush) the message decoded -/
+example : let c := krun treeF30b (kconn0 16384) (tlsAfterDeflate [83, 69, 67, 82, 69, 84])
+    c.fw = none ∧ c.stray = [] ∧ c.kinds = [.deflate, .tls] ∧ c.seen = (c.t.sent.map encodeFrame).flatten := by decide
+/-- tls → deflate → tls on d6aa4e3: the stale writer writes into the FIRST TLS session (layer 1) while the client
+decodes the second (stack 3) -/
+example : (krun treeF30 (kconn0 64) [.upgrade .tls 64, .sendResponse okFrame, .upgrade .deflate 64, .sendResponse okFrame,
+    .upgrade .tls 64, .sendResponse okFrame]).stray = [⟨1, 3, 30⟩] := by decide
+/-- snappy → tls and deflate → tls → snappy / deflate on d6aa4e3: nothing stale at the end (but deflate → tls → snappy
+wrote one marker while the TLS-only stack was current: the OK after the handshake) -/
+example : (krun treeF30 (kconn0 64) [.upgrade .snappy 64, .sendResponse okFrame, .upgrade .tls 64, .sendResponse okFrame]).stray = [] := by decide
+example : let c := krun treeF30 (kconn0 64) [.upgrade .deflate 64, .sendResponse okFrame, .upgrade .tls 64, .sendResponse okFrame,
+    .upgrade .snappy 64, .sendResponse okFrame]
+    ¬ c.Stale ∧ c.stray = [⟨0, 2, 20⟩] := by decide
+/-- before F30 (`snappyClears = false`): deflate → snappy, the finding `snappy-after-deflate-garbled` -/
+example : (krun ⟨true, false, false⟩ (kconn0 64) [.upgrade .deflate 64, .sendResponse okFrame, .upgrade .snappy 64,
+    .sendResponse okFrame]).stray = [⟨0, 2, 20⟩] := by decide
+/-- a `SetOutputBuffer` on the stale connection writes no marker (`c.Writer.Flush()` only), the next response does -/
+example : (krun treeF30 (kconn0 64) [.upgrade .deflate 64, .upgrade .tls 64, .setOutputBuffer 128]).stray = [] ∧
+    (krun treeF30 (kconn0 64) [.upgrade .deflate 64, .upgrade .tls 64, .setOutputBuffer 128, .sendResponse okFrame]).stray
+      = [⟨0, 2, 10⟩] := by decide
+/-- the partial theorem's hypothesis: satisfied by TLS, then deflate, then re-buffers; violated by the witness -/
+example : NoTlsAfterDeflate [.upgrade .tls 64, .sendResponse okFrame, .upgrade .deflate 64, .setOutputBuffer 128,
+    .sendResponse okFrame, .subscribe, .sendMessage ⟨2#32, [1]⟩] = true := by decide
+example : NoTlsAfterDeflate (tlsAfterDeflate [1]) = false := by decide
+example : staleAfter [.deflate, .tls] = true ∧ staleAfter [.snappy, .deflate, .tls] = true ∧
+    staleAfter [.tls, .deflate, .tls] = true ∧ staleAfter [.deflate, .tls, .tls] = true ∧
+    staleAfter [.snappy, .tls] = false ∧ staleAfter [.deflate, .snappy, .tls] = false ∧
+    staleAfter [.deflate, .tls, .snappy] = false ∧ staleAfter [.deflate, .tls, .deflate] = false := by decide
+/-- the checked tree on a schedule within the hypothesis -/
+example : (krun Nsq.Tie.WireStack.tree (kconn0 64) [.upgrade .tls 64, .sendResponse okFrame, .upgrade .deflate 64,
+    .sendResponse okFrame]).stray = [] := (this_tree_k 64 _ (Or.inr (by decide))).2
 
 end Nsq.Props.C07Stack
